@@ -426,7 +426,15 @@ def _tally_delta(impl: "Impl", op: list) -> Optional[Tuple[int, int]]:
     return None  # api_create: known from the answer
 
 
-def run_impl(case: dict) -> Tuple[List[str], List[List[str]], List[Optional[int]]]:
+def _corrupt_deleted(fs) -> Tuple[set, set]:
+    """uuids of files / folders that are CORRUPT and deleted at once (the health x deletion corner)."""
+    folders = list(fs.folders.values()) + list(fs.deleted_folders.values())
+    files = {f.uuid for g in folders for f in list(g.files.values()) + list(g.deleted_files.values())
+             if f.deleted and f.health_status.name == "CORRUPT"}
+    return files, {g.uuid for g in folders if g.deleted and g.health_status.name == "CORRUPT"}
+
+
+def run_impl(case: dict) -> Tuple[List[str], List[List[str]], List[Optional[int]], Dict[str, int]]:
     """Output lines aligned with model_lines(case, flags), the oracle's verdict after every operation, and the power flag
     the real node showed after every tick / power request (surface "net")."""
     impl = Impl(case["surface"], case.get("restore_duration"), case.get("scan_duration"), case.get("node"))
@@ -434,8 +442,10 @@ def run_impl(case: dict) -> Tuple[List[str], List[List[str]], List[Optional[int]
     verdicts: List[List[str]] = []
     flags: List[Optional[int]] = []
     tally: Optional[List[int]] = [0, 0]  # successful creations / deletions since the last pre_timestep (None: not tracked)
+    stats: Dict[str, int] = {}
     for op in case["ops"]:
         k = op[0]
+        cd_files, cd_folders = _corrupt_deleted(impl.fs)
         delta = _tally_delta(impl, op) if k.startswith("api_") and k != "api_create" else None
         try:
             status = impl.apply(op)
@@ -448,6 +458,16 @@ def run_impl(case: dict) -> Tuple[List[str], List[List[str]], List[Optional[int]
             continue
         flags.append(impl.power_flag() if k in ("tick", "power") else None)
         out.append(f"{status} | {dump_impl(impl.fs, impl.pc)} | {describe_impl(impl.fs)}")
+        if cd_files or cd_folders:  # measured coverage of the health x deletion corner: who brought a corrupt deleted item back
+            kind = k + (":" + str(op[-1]) if k in ("fverb", "xverb", "sverb") else "")
+            stats["health:ops-with-a-corrupt-deleted-item-present"] = stats.get("health:ops-with-a-corrupt-deleted-item-present", 0) + 1
+            live_files = {f.uuid for g in impl.fs.folders.values() for f in g.files.values()}
+            back = len(cd_files & live_files)
+            if back:
+                stats[f"health:corrupt-deleted-file-made-live-by:{kind}"] = stats.get(f"health:corrupt-deleted-file-made-live-by:{kind}", 0) + back
+            fback = len(cd_folders & set(impl.fs.folders))
+            if fback:
+                stats[f"health:corrupt-deleted-folder-made-live-by:{kind}"] = stats.get(f"health:corrupt-deleted-folder-made-live-by:{kind}", 0) + fback
         bad = oracle(impl.fs, after_pre=(k == "pre"))
         # the counters count THIS tick's successful creations / deletions only (nothing left over from an earlier tick),
         # read where the game reads them: the node's entry in the simulation's describe_state()
@@ -486,7 +506,7 @@ def run_impl(case: dict) -> Tuple[List[str], List[List[str]], List[Optional[int]
                     if (ob.get(key, 0) != 0) != (on and cnt != 0):
                         bad.append("host-observation-shows-this-tick-only")
         verdicts.append(sorted(set(bad)))
-    return out, verdicts, flags
+    return out, verdicts, flags, stats
 
 
 # ------------------------------------------------------------------------------------------ generation
@@ -771,3 +791,41 @@ def gen_net_case(rng: Rng, max_ticks: int = 10) -> dict:
             g_tick()
     return {"surface": "net", "restore_duration": rng.choice([None, 1, 1, 2, 3]), "scan_duration": rng.choice([None, 1, 2]),
             "node": node, "ops": ops}
+
+
+# ------------------------------------------------------------------------------------------ health x deletion families
+def health_alphabet() -> List[list]:
+    """Bounded-exhaustive family H (after the fixed prefix `create fa/a`): corrupt, delete and restore at file and folder level."""
+    return [["xverb", "fa", "a", "corrupt"], ["fverb", "fa", "corrupt"], ["dfile", "fa", "a"], ["dfolder", "fa"], ["rfile", "fa", "a"],
+            ["xverb", "fa", "a", "restore"], ["rfolder", "fa"], ["tick"]]
+
+
+def gen_health_case(rng: Rng, max_ops: int = 24) -> dict:
+    """corrupt -> delete -> restore churn at file and folder level, on every surface (requests, agent actions, a node in a network)."""
+    surface = rng.choice(["fs", "node", "action", "action", "net"])
+    folders, files = ["fa", "fb"][: rng.range(1, 2)], ["a", "b"][: rng.range(1, 2)]
+    ops: List[list] = [["cfile", F, x, False] for F in folders for x in files if rng.chance(3, 4)]
+    for _ in range(rng.range(4, max_ops)):
+        F, x = rng.choice(folders), rng.choice(files)
+        k = rng.below(20)
+        if k < 4:
+            ops.append(rng.choice([["xverb", F, x, "corrupt"], ["sverb", F, x, "corrupt"], ["fverb", F, "corrupt"]]))
+        elif k < 8:
+            ops.append(rng.choice([["dfile", F, x], ["dfile", F, x], ["fdel", F, x], ["dfolder", F]]))
+        elif k < 13:
+            ops.append(rng.choice([["rfile", F, x], ["rfile", F, x], ["xverb", F, x, "restore"], ["sverb", F, x, "restore"], ["rfolder", F],
+                                   ["fverb", F, "restore"]]))
+        elif k < 16:
+            ops.append(["tick"])
+        elif k < 17:
+            ops.append(rng.choice([["xverb", F, x, "repair"], ["fverb", F, "repair"], ["xverb", F, x, "scan"], ["fverb", F, "scan"]]))
+        elif k < 18:
+            ops.append(["cfile", F, x, rng.choice([False, True])])
+        elif k < 19:
+            ops.append(rng.choice([["api_copy", F, x, rng.choice(folders)], ["api_move", F, x, rng.choice(folders + ["fc"])]]))
+        else:
+            ops.append(["pre"])
+    case = {"surface": surface, "restore_duration": rng.choice([1, 1, 2, 3, None]), "scan_duration": rng.choice([None, 1]), "ops": ops}
+    if surface == "net":
+        case["node"] = {"up": 0, "down": 0, "nscan": 1, "on": True, "actions": rng.chance(1, 2)}
+    return case
